@@ -1,6 +1,7 @@
 package observation
 
 import (
+	"bytes"
 	"context"
 	"errors"
 	"fmt"
@@ -40,7 +41,8 @@ func (h *Handler[C]) Handle(w *responsewriter.ResponseWriter[C], r *pool.Message
 	// Tokens are scoped per direction: a request of the peer may carry the token bytes of one of our
 	// observations and is not a notification of it.
 	if !isRequest(r) {
-		if o, ok := h.observations.Load(r.Token().Hash()); ok {
+		// the table is keyed by a checksum of the token: make sure it is this observation's token
+		if o, ok := h.observations.Load(r.Token().Hash()); ok && bytes.Equal(o.req.Token, r.Token()) {
 			o.handle(r)
 			return
 		}
